@@ -1068,6 +1068,15 @@ def reachable_cp(fn, starts, cut_edges=(), cut_blocks=(), init=None, max_states=
                     if st[1][1][1][0] not in track:
                         track.add(st[1][1][1][0])
                         changed = True
+    # tuple flags: `t = (true, a, b)` … `flag = t.0` … `if flag`
+    tup_src = {}
+    for b in fn.bbs:
+        for st in b['s']:
+            rv = st[1]
+            if st[0][0] in track and not st[0][1] and rv[0] == 'use' and rv[1][0] in ('c', 'm'):
+                pl = rv[1][1]
+                if len(pl[1]) == 1 and isinstance(pl[1][0], str) and re.match(r'^#\d+$', pl[1][0]):
+                    tup_src[pl[0]] = True
     seen = set()
     blocks = set()
     work = [(s, frozenset((init or {}).items())) for s in starts if s not in cut_blocks]
@@ -1087,6 +1096,24 @@ def reachable_cp(fn, starts, cut_edges=(), cut_blocks=(), init=None, max_states=
                 continue
             l = d[0]
             rv = s[1]
+            if l in tup_src:
+                for key in [k for k in env if isinstance(k, tuple) and k[0] == l]:
+                    env.pop(key, None)
+                if rv[0] == 'agg' and rv[1] == 'tuple':
+                    for i, op in enumerate(rv[2]):
+                        if op[0] == 'k':
+                            v = _const_val(op[1])
+                            if v is not None:
+                                env[(l, i)] = v
+                continue
+            if l in track and rv[0] == 'use' and rv[1][0] in ('c', 'm') and len(rv[1][1][1]) == 1 \
+                    and isinstance(rv[1][1][1][0], str) and re.match(r'^#\d+$', rv[1][1][1][0]):
+                key = (rv[1][1][0], int(rv[1][1][1][0][1:]))
+                if key in env:
+                    env[l] = env[key]
+                else:
+                    env.pop(l, None)
+                continue
             if l in track and rv[0] == 'use':
                 op = rv[1]
                 if op[0] == 'k':
